@@ -11,6 +11,7 @@ import (
 	"math/rand/v2"
 	"reflect"
 	"regexp"
+	"sort"
 	"strconv"
 	"strings"
 
@@ -456,10 +457,9 @@ func starTarget(r *rand.Rand, dst map[string]any) toPath {
 	}
 	end, _ := walk(dst, segs)
 	end.(map[string]any)["*"] = genScalar(r)
+	// no trailing field: with one, whether the expansion reaches the "*" key before another key's
+	// value makes it fail depends on Go's map iteration order
 	segs = append(segs, seg{wild: true})
-	if chance(r, 0.4) {
-		segs = append(segs, seg{field: genKey(r)})
-	}
 	return toPath{s: render(r, segs), segs: segs, class: "wildcard-over-star-key", wild: true}
 }
 
@@ -502,7 +502,11 @@ func runPatchCaseOpt(c sink, name string, r *rand.Rand, st stats, star bool) {
 	entry := "Apply"
 	var f applyFn
 	filtered := false
-	switch x := r.IntN(100); {
+	x := r.IntN(100)
+	if star {
+		x = 0
+	}
+	switch {
 	case x < 55:
 		f = func(x *composite.Unstructured, d *composed.Unstructured) error { return xcomposite.Apply(pc.p, x, d) }
 	case x < 70:
@@ -920,4 +924,71 @@ func runRenderCase(c sink, name string, r *rand.Rand, st stats) {
 			c.Violate("render:"+dir+"-required-missing-no-error", name, "a required patch with a missing source path rendered without error", w)
 		}
 	}
+}
+
+// rawAsString renders a value holding apiextensions JSON fields whose raw bytes may be
+// malformed: it goes through reflection-free formatting of the known witness types.
+func rawAsString(v any) any {
+	switch t := v.(type) {
+	case v1.Patch:
+		return patchString(t)
+	case []v1.Patch:
+		out := make([]string, len(t))
+		for i := range t {
+			out[i] = patchString(t[i])
+		}
+		return out
+	case v1.Transform:
+		return transformString(t)
+	case []v1.Transform:
+		out := make([]string, len(t))
+		for i := range t {
+			out[i] = transformString(t[i])
+		}
+		return out
+	}
+	return fmt.Sprintf("%+v", v)
+}
+
+func transformString(t v1.Transform) string {
+	switch {
+	case t.Map != nil:
+		var sb strings.Builder
+		sb.WriteString("map{")
+		ks := make([]string, 0, len(t.Map.Pairs))
+		for k := range t.Map.Pairs {
+			ks = append(ks, k)
+		}
+		sort.Strings(ks)
+		for _, k := range ks {
+			fmt.Fprintf(&sb, "%q: raw(%s), ", k, t.Map.Pairs[k].Raw)
+		}
+		return sb.String() + "}"
+	case t.Match != nil:
+		var sb strings.Builder
+		sb.WriteString("match{")
+		for _, p := range t.Match.Patterns {
+			lit, rx := "<nil>", "<nil>"
+			if p.Literal != nil {
+				lit = strconv.Quote(*p.Literal)
+			}
+			if p.Regexp != nil {
+				rx = strconv.Quote(*p.Regexp)
+			}
+			fmt.Fprintf(&sb, "{type:%s literal:%s regexp:%s result:raw(%s)} ", p.Type, lit, rx, p.Result.Raw)
+		}
+		fmt.Fprintf(&sb, "fallbackTo:%s fallbackValue:raw(%s)}", t.Match.FallbackTo, t.Match.FallbackValue.Raw)
+		return sb.String()
+	}
+	return kit.JSON(t)
+}
+
+func patchString(p v1.Patch) string {
+	ts := make([]string, len(p.Transforms))
+	for i := range p.Transforms {
+		ts[i] = transformString(p.Transforms[i])
+	}
+	q := p
+	q.Transforms = nil
+	return kit.JSON(q) + " transforms=" + strings.Join(ts, " | ")
 }
